@@ -3,6 +3,7 @@ package main
 import (
 	"bytes"
 	"fmt"
+	"sort"
 	"strings"
 
 	"github.com/robfig/soy"
@@ -61,10 +62,15 @@ func c19Faults() []c19fault {
 }
 
 func checkC19(c *Ctx) {
+	c19WriteFailures(c)
 	files := c19Files()
 	faults := c19Faults()
 	// ---- parse errors ----
 	for fi, lines := range files {
+		if fi%2 == 1 {
+			// inputs may begin with blank lines (a Go raw string that starts on the line after the back quote)
+			lines = append([]string{"", "", ""}, lines...)
+		}
 		for _, eolv := range []struct {
 			eol   string
 			final bool // the input ends with a line break
@@ -98,7 +104,13 @@ func checkC19(c *Ctx) {
 						}
 						name := fmt.Sprintf("dir/file%d.soy", fi)
 						var perr error
-						v := vrt.Run(vrt.Options{Fuel: 5000000}, func() { _, perr = parse.SoyFile(name, text) })
+						v := vrt.Run(vrt.Options{Fuel: 5000000}, func() {
+							_, perr = parse.SoyFile(name, text)
+							if perr != nil && li%2 == 1 {
+								// the same error through the bundle API, which is how files reach the parser in practice
+								_, perr = soy.NewBundle().AddTemplateString(name, text).Compile()
+							}
+						})
 						cs := c19case{Kind: "parse", File: name, Text: text, Fault: f.name + " (" + where + ")", Line: li + 1, EOL: fmt.Sprintf("%q", eol)}
 						key := fmt.Sprintf("p%d|%q|%v|%d|%s|%s", fi, eol, eolv.final, li, f.name, where)
 						if v.Panic != nil || v.Exhausted {
@@ -193,13 +205,16 @@ func checkC19(c *Ctx) {
 	for _, eol := range []string{"\n", "\r\n"} {
 		for depth := 0; depth <= 3; depth++ {
 			for pad := 0; pad <= 5; pad++ {
-				for _, wrap := range []string{"plain", "if", "foreach", "let", "param", "call-value-params", "call-content-params"} {
+				for _, wrap := range []string{"plain", "if", "foreach", "let", "param", "call-value-params", "call-content-params", "quoted-data", "quoted-value", "css-expr"} {
 					for bi, bad := range bads {
 						if !c.Mine() {
 							continue
 						}
 						// entry file: the failing command (or the call leading to it) sits on line failLine.
 						var lines []string
+						if pad%2 == 1 {
+							lines = append(lines, "", "", "") // the entry file begins with blank lines
+						}
 						lines = append(lines, "{namespace r.entry}", "/**", " * @param? u", " * @param? n", " */", "{template .main}")
 						for i := 0; i < pad; i++ {
 							lines = append(lines, fmt.Sprintf("filler line %d {$n ?: ''}", i))
@@ -224,6 +239,30 @@ func checkC19(c *Ctx) {
 								lines = append(lines, "  {param "+map[bool]string{true: "n", false: "u"}[strings.Contains(bad, "$u")]+"}", "    text", "    {$n ?: ''}", "    more text", "  {/param}")
 							}
 							lines = append(lines, "{/call}")
+						case "quoted-data", "quoted-value", "css-expr":
+							// the failing expression sits in a quoted attribute (or the expression part of
+							// {css}), which the parser handles on its own: the error still belongs to the tag.
+							if depth != 0 {
+								continue
+							}
+							expr := strings.Trim(bad, "{}")
+							if expr == "$u" {
+								expr = "$u.b.c"
+							}
+							switch wrap {
+							case "quoted-data":
+								lines = append(lines, "{call .sink data=\""+expr+"\"/}")
+								ok = []int{len(lines)}
+							case "quoted-value":
+								lines = append(lines, "{call .sink}")
+								a := len(lines)
+								lines = append(lines, "  {param key=\"s\" value=\""+expr+"\"/}")
+								ok = []int{a, len(lines)}
+								lines = append(lines, "{/call}")
+							default:
+								lines = append(lines, "{css "+expr+", cls}")
+								ok = []int{len(lines)}
+							}
 						case "plain":
 							lines = append(lines, inner)
 							ok = []int{len(lines)}
@@ -354,6 +393,106 @@ func checkC19(c *Ctx) {
 							}
 						}
 					}
+				}
+			}
+		}
+	}
+}
+
+// markWriter fails (once and for all) at the first write that contains the mark; it is a plain
+// io.Writer (no WriteByte/WriteString), like a network connection.
+type markWriter struct {
+	mark   string
+	failed bool
+}
+
+func (w *markWriter) Write(p []byte) (int, error) {
+	if w.failed || strings.Contains(string(p), w.mark) {
+		w.failed = true
+		return 0, fmt.Errorf("connection reset")
+	}
+	return len(p), nil
+}
+
+// c19WriteFailures: a render error caused by the writer is a render error like any other: it names
+// the entry file and the line of the command whose output could not be written (for output
+// produced inside a callee: the line of the call in the entry template).
+func c19WriteFailures(c *Ctx) {
+	for _, eol := range []string{"\n", "\r\n"} {
+		for lead := 0; lead <= 3; lead += 3 {
+			var lines []string
+			for i := 0; i < lead; i++ {
+				lines = append(lines, "")
+			}
+			lines = append(lines, "{namespace w.entry}", "/** @param? n */", "{template .main}")
+			marks := map[string]int{}
+			add := func(line, mark string) {
+				lines = append(lines, line)
+				marks[mark] = len(lines)
+			}
+			add("text T1 here", "T1")
+			add("{'P2'}", "P2")
+			add("{$n ?: 'P3'} text", "P3")
+			add("{if true}inside I4{/if}", "I4")
+			add("{call .sub}{param s: 'C5' /}{/call}", "C5")
+			marks["S0"] = marks["C5"] // text written by the callee itself
+			add("{msg desc=\"d\"}message M7 <b>{$n ?: 'B7'}</b>{/msg}", "M7")
+			add("{css 'K8', cls}", "K8")
+			add("last T9", "T9")
+			lines = append(lines, "{/template}", "/** @param s */", "{template .sub}", "S0[{$s}]", "{/template}")
+			text := strings.Join(lines, eol) + eol
+			var ms []string
+			for m := range marks {
+				ms = append(ms, m)
+			}
+			ms = append(ms, "B7")
+			marks["B7"] = marks["M7"]
+			sort.Strings(ms)
+			for _, m := range ms {
+				if !c.Mine() {
+					continue
+				}
+				var rerr, cerr error
+				v := vrt.Run(vrt.Options{Fuel: 5000000}, func() {
+					tofu, err := soy.NewBundle().AddTemplateString("app/w.soy", text).CompileToTofu()
+					if err != nil {
+						cerr = err
+						return
+					}
+					rerr = tofu.Render(&markWriter{mark: m}, "w.entry.main", nil)
+				})
+				cs := c19case{Kind: "render", File: "app/w.soy", Text: text, Fault: "the writer fails at the write that contains " + m, Line: marks[m], EOL: fmt.Sprintf("%q", eol)}
+				key := fmt.Sprintf("w|%q|%d|%s", eol, lead, m)
+				sig := fmt.Sprintf("write failure:%s:%q", m[:1], eol)
+				switch {
+				case v.Panic != nil || v.Exhausted:
+					c.Observe(key, "panic")
+					c.Violate("render returns", "panic", "panic:render "+sig, cs, "error", fmt.Sprint(v.Panic))
+					continue
+				case cerr != nil:
+					c.Observe(key, "compile error")
+					c.Violate("fixture compiles", "mismatch", "fixture:write failure", cs, "compiles", cerr.Error())
+					continue
+				case rerr == nil:
+					c.Observe(key, "no error")
+					c.Violate("a failing writer fails the render", "mismatch", "no-error:"+sig, cs, "render error", "nil")
+					continue
+				}
+				c.Nontrivial()
+				fp := errortypes.ToErrFilePos(rerr)
+				if fp == nil {
+					c.Observe(key, "no position")
+					c.Violate("every render error carries a file position", "mismatch", "no-filepos:render "+sig, cs, "ErrFilePos", firstLineOf(rerr.Error()))
+					continue
+				}
+				c.Observe(key, fmt.Sprintf("%s:%d", fp.File(), fp.Line()))
+				switch {
+				case fp.File() != "app/w.soy":
+					c.Violate("a render error carries the file that defines the entry template", "mismatch", "render-file:"+sig, cs, "app/w.soy", fmt.Sprintf("%s:%d (%s)", fp.File(), fp.Line(), firstLineOf(rerr.Error())))
+				case fp.Line() != marks[m] && !(m[0] == 'T' && fp.Line() == marks[m]+1):
+					// (a run of template text that ends with a line break ends on the next line, which is
+					// where the parser places it)
+					c.Violate("a render error carries the line, in the entry file, of the outermost command whose execution failed", "mismatch", "render-line:"+sig, cs, fmt.Sprint(marks[m]), fmt.Sprintf("%d (%s)", fp.Line(), firstLineOf(rerr.Error())))
 				}
 			}
 		}
